@@ -44,6 +44,10 @@ def variants_for(pid: str):
     out.append({"name": "neutral:shift", "kind": "neutral", "transform": "shift"})
     for p in sorted((ROOT / "selftest" / "neutral" / pid).glob("*.diff")):
         out.append({"name": f"neutral:{p.stem}", "kind": "neutral", "patch": str(p)})
+    # behaviour-preserving refactorings written by independent sub-agents for this property (see DESIGN.md, neutral round)
+    for meta in sorted((ROOT / "neutral").glob(f"{pid}-N-*/meta.json")):
+        if (meta.parent / "patch.diff").exists():
+            out.append({"name": f"neutral:{meta.parent.name}", "kind": "neutral", "patch": str(meta.parent / "patch.diff")})
     return out
 
 
